@@ -23,6 +23,7 @@ EXPLANATION = (
     "in parameter order>) with the rule's own op - the same call shape as the lazy constructors. R06.4: Tensor declares as event shape "
     "the trailing shape of its array after len(inputs) batch dimensions. R06.5: a dimension parameter read from an op (axis/dim) is "
     "normalised modulo the rank before it is compared with dimension indices, in every branch of its canonicalisation."
+    " Added since: R06.3 follows the dtype of every Tensor/Number built by a ground eager rule for a class of ops back to find_domain; R06.6 a Slice's stop reaches construction clamped to dtype."
 )
 ASSUMPTIONS = [
     "values/shapes actually returned by op implementations on arrays are not decided (runtime)",
